@@ -145,6 +145,13 @@ def run_clause(cl, rng, n, driver, stats, replay_input=None):
             obs = pool.map(_par_worker, inputs, chunksize=max(1, len(inputs) // (par * 6)))
     else:
         obs = [_safe_run(cl, inp) for inp in inputs]
+    # a harness-side time guard (props' own per-call limits) that fires under machine load is not an observation of the
+    # implementation: repeat such a case once, serially; only a guard that fires again is kept as the observation
+    for i, o in enumerate(obs):
+        if isinstance(o, dict) and o.get("exc") in ("Slow", "CallTimeout"):
+            obs[i] = _safe_run(cl, inputs[i])
+            if isinstance(obs[i], dict) and obs[i].get("exc") == "Slow":
+                obs[i] = _safe_run(cl, inputs[i])
     lean_res = [[] for _ in inputs]
     if cl.lean is not None:
         ops, spans = [], []
